@@ -670,8 +670,12 @@ func (c *checker) writeEvidence(wall float64) {
 		cov["states"] = 0
 	}
 	b, _ := json.MarshalIndent(ev, "", " ")
-	os.MkdirAll(filepath.Join(c.verif, "evidence"), 0o755)
-	os.WriteFile(filepath.Join(c.verif, "evidence", c.prop+".json"), b, 0o644)
+	edir := filepath.Join(c.verif, "evidence")
+	if d := os.Getenv("GOSX_EVIDENCE_DIR"); d != "" {
+		edir = d // experiments only: the registered commands never set this
+	}
+	os.MkdirAll(edir, 0o755)
+	os.WriteFile(filepath.Join(edir, c.prop+".json"), b, 0o644)
 }
 
 func gitRev(repo string) string {
